@@ -12,6 +12,7 @@ the same class can be inlined (bounded depth).  No code of the repository is
 executed and no constraint solver is involved.
 """
 import ast
+import re as _re
 from .inline import InlineBlock, InlineLeave
 import itertools
 
@@ -139,6 +140,7 @@ class TooManyPaths(Exception):
 
 
 BUILTIN_TYPES = {"str": str, "bytes": bytes, "list": list, "tuple": tuple, "dict": dict, "int": int, "bool": bool, "float": float, "set": set}
+RE_FLAGS = {"I", "IGNORECASE", "M", "MULTILINE", "S", "DOTALL", "X", "VERBOSE", "A", "ASCII", "U", "UNICODE"}
 PURE_STR = {"lower", "upper", "replace", "strip", "lstrip", "rstrip", "encode", "decode", "startswith", "endswith",
             "split", "format", "join", "capitalize", "title", "splitlines", "count", "find", "rfind", "index", "rindex", "partition", "rpartition"}
 
@@ -530,6 +532,8 @@ class Interp:
             key = self.attr_key(e)
             if key and key in st.env:
                 return [(st.env[key], st)]
+            if isinstance(e.value, ast.Name) and e.value.id == "re" and "re" not in st.env and e.attr in RE_FLAGS:
+                return [(Const(getattr(_re, e.attr)), st)]
             if isinstance(e.value, ast.Name) and e.value.id == self.selfname:
                 return [(Unknown(norm(e)), st)]
             res = []
@@ -917,6 +921,22 @@ class Interp:
                     return [(Exc(type(ex).__name__, e), st)]
             s2.env[f.value.id] = Unknown("container")
             return [(Unknown("call:%s" % f.attr), s2)]
+        # regular expressions over constants: the stdlib engine applied to a constant pattern and a constant subject
+        if isinstance(f, ast.Attribute) and isinstance(f.value, ast.Name) and f.value.id == "re" and "re" not in st.env \
+                and f.attr in ("compile", "match", "search", "fullmatch", "sub", "findall", "split", "escape") \
+                and all(isinstance(a, Const) for a in list(args) + list(kw.values())):
+            try:
+                return [(Const(getattr(_re, f.attr)(*[a.v for a in args], **{k: v.v for k, v in kw.items()})), st)]
+            except Exception as ex:
+                return [(Exc(type(ex).__name__, e), st)]
+        if isinstance(f, ast.Attribute) and isinstance(recv, Const) and isinstance(recv.v, (_re.Pattern, _re.Match)):
+            ok_ = ("match", "search", "fullmatch", "sub", "findall", "split") if isinstance(recv.v, _re.Pattern) else (
+                "group", "groups", "start", "end", "span", "groupdict")
+            if f.attr in ok_ and all(isinstance(a, Const) for a in list(args) + list(kw.values())):
+                try:
+                    return [(Const(getattr(recv.v, f.attr)(*[a.v for a in args], **{k: v.v for k, v in kw.items()})), st)]
+                except Exception as ex:
+                    return [(Exc(type(ex).__name__, e), st)]
         if isinstance(f, ast.Attribute) and isinstance(recv, Const):
             if recv.v is None:
                 return [(Exc("AttributeError", e), st)]
